@@ -43,15 +43,19 @@ Definition obs_diff (m b : obs) : N :=
   else if negb (same_set (fun x y => (fst x =? fst y) && (snd x =? snd y)) (o_routes m) (o_routes b)) then 5
   else 0.
 
-(* first step whose observation differs from the model: position = 10*step + part *)
-Fixpoint first_mismatch (s : state) (tr : list (ev * obs)) (i : N) : option N :=
+(* first step whose observation differs from the model: position = 10*step + part.  Steps marked unobserved (states
+   inside one multi-line set operation) are not compared; what the model emits in them is expected, in order, in front
+   of the outputs of the next observed step. *)
+Fixpoint first_mismatch_acc (s : state) (tr : list (ev * obs)) (i : N) (acc : list out) : option N :=
   match tr with
   | [] => None
   | (e, b) :: r =>
       let '(s1, o) := step s e in
-      let d := obs_diff (observe s1 o) b in
-      if d =? 0 then first_mismatch s1 r (i + 1) else Some (10 * i + d)
+      if unobserved b then first_mismatch_acc s1 r (i + 1) (acc ++ o) else
+      let d := obs_diff (observe s1 (acc ++ o)) b in
+      if d =? 0 then first_mismatch_acc s1 r (i + 1) [] else Some (10 * i + d)
   end.
+Definition first_mismatch (s : state) (tr : list (ev * obs)) (i : N) : option N := first_mismatch_acc s tr i [].
 
 Fixpoint first_verdict (vs : list (list N)) (i : N) : option N :=
   match vs with
